@@ -246,6 +246,13 @@ theorem quickselect_conserves (cmp : Cmp3 ε α) (arr : List α) (target : Nat) 
     | fail e b m => rw [hr] at hc; exact hc
     | panic => trivial
 
+/-- since the repair 9e13c00 (the pivot is no longer compared with itself): for EVERY comparator —
+inconsistent ones included, e.g. one that always answers -1 — and every rank inside the array,
+`quickselect` never indexes out of bounds (no `panic` outcome, nor the model's fuel) -/
+theorem quickselect_no_panic (cmp : Cmp3 ε α) (arr : List α) (target : Nat) (ht : target < arr.length) :
+    Select.quickselect cmp arr target ≠ .panic :=
+  Select.quickselect_ok cmp arr target ht
+
 /-! ## derived eq / hash / cmp and the relational operators
 
 `PureEq f g` etc.: the component function never answers an error value and computes `g`.
